@@ -442,6 +442,14 @@ pub fn run_type<T: Model>(out: &mut Out, r: &mut Rng, n: usize, which: &str) {
                     if let Some(_) = de_case::<T>(out, &imp, true) {
                         out.fail("improper-accepted", format!("an improper list is accepted where a sequence or tuple is expected ({})", tyname), format!("de {} ; {}", T::ty(), enc_case_value(&imp)), json!({}));
                     }
+                    // ... also when it is one cell shorter: the last element standing as the tail (a pair for a 2-tuple)
+                    if els.len() >= 2 && !els[els.len() - 1].is_list() {
+                        let imp3 = Value::append(els[..els.len() - 1].to_vec(), els[els.len() - 1].clone());
+                        out.oracle_checks += 1;
+                        if let Some(_) = de_case::<T>(out, &imp3, true) {
+                            out.fail("improper-accepted", format!("an improper list whose tail is the last element is accepted where a sequence or tuple is expected ({})", tyname), format!("de {} ; {}", T::ty(), enc_case_value(&imp3)), json!({}));
+                        }
+                    }
                     // ... also when it is longer than what a fixed-size visitor reads
                     let mut longer = els;
                     longer.push(Value::from(7));
@@ -509,7 +517,48 @@ where T: serde::Serialize + serde::de::DeserializeOwned + PartialEq + std::fmt::
     }
 }
 
+// derive attributes that change what is written: fields left out, renamed, defaulted
+// (not #[serde(flatten)]: it re-routes a struct through the map category with keys that are
+// written as strings and read back as identifiers - outside the family of types C04 names)
+#[derive(serde_derive::Serialize, serde_derive::Deserialize, PartialEq, Debug, Clone)]
+struct Job {
+    name: String,
+    priority: u8,
+    #[serde(skip_serializing_if = "Option::is_none")]
+    retries: Option<u32>,
+}
+#[derive(serde_derive::Serialize, serde_derive::Deserialize, PartialEq, Debug, Clone)]
+struct Sparse {
+    #[serde(skip_serializing_if = "Option::is_none")]
+    first: Option<bool>,
+    id: i64,
+    #[serde(skip_serializing_if = "Vec::is_empty", default)]
+    tags: Vec<String>,
+    #[serde(rename = "kind-of", default)]
+    kind: Option<char>,
+    #[serde(skip_serializing_if = "Option::is_none")]
+    last: Option<String>,
+}
+#[derive(serde_derive::Serialize, serde_derive::Deserialize, PartialEq, Debug, Clone)]
+enum Event {
+    Started { id: u32, #[serde(skip_serializing_if = "Option::is_none")] by: Option<String> },
+    #[serde(rename = "stopped-at")]
+    Stopped(u64),
+    Idle,
+}
+
 fn run_foreign(out: &mut Out, r: &mut Rng, n: usize) {
+    for i in 0..n.min(200) {
+        let a = r.next();
+        let opt = |k: u64| if (a >> k) & 1 == 0 { None } else { Some((a >> (k + 1)) as u32 % 1000) };
+        foreign_case(out, Job { name: format!("j{}", a % 5), priority: a as u8, retries: opt(3) });
+        foreign_case(out, Sparse { first: if i % 3 == 0 { None } else { Some(i % 2 == 0) }, id: a as i64, tags: (0..(a % 3)).map(|k| format!("t{}", k)).collect(),
+                                   kind: if (a >> 9) & 1 == 0 { None } else { Some('k') }, last: opt(11).map(|x| x.to_string()) });
+        foreign_case(out, Event::Started { id: a as u32, by: opt(5).map(|x| format!("u{}", x)) });
+        foreign_case(out, Event::Stopped(a));
+        foreign_case(out, vec![Event::Idle, Event::Started { id: 1, by: None }]);
+        foreign_case(out, Some(Job { name: String::new(), priority: 0, retries: None }));
+    }
     use std::net::{IpAddr, Ipv4Addr, Ipv6Addr, SocketAddr, SocketAddrV4, SocketAddrV6};
     use std::num::{NonZeroI64, NonZeroU8, Wrapping};
     use std::time::Duration;
